@@ -92,7 +92,7 @@ def check_C02(tier, seed):
     run_workflow(out, "C02", tier)
     run_mb_traces(out, tier)
     from .checks_lifecycle import run_lifecycle_traces
-    run_lifecycle_traces(out, "C02", tier)
+    run_lifecycle_traces(out, "C02", tier, direction_a=(tier != "quick"))    # (quick: the recorded runs only; direction A runs in C05 / C17 / C18 / C19)
     out.exhaustive = True
     out.assumptions += [
         "workflow engine: the library's own how-to system (spec/Workflow.tla) with FORMAL parameters: TLC proves the balance of process_a "
